@@ -15,9 +15,10 @@ var vSpecKeywordText = [kCount]string{"JSIGHT", "INFO", "Title", "Version", "Des
 	"Protocol", "Method", "Params", "Result", "TAG", "Tags", "OperationId"}
 
 type vBanDoc struct {
-	root  string
-	files map[string]string
-	kinds []int // directive kinds that occur anywhere in the project text
+	root   string
+	files  map[string]string
+	kinds  []int // directive kinds that occur anywhere in the project text
+	faulty bool  // rejected also without any ban (its last directive is faulty in itself)
 }
 
 var vBanDocs = []vBanDoc{
@@ -39,7 +40,7 @@ var vBanDocs = []vBanDoc{
 			kQuery, kRequest, kHeaders, kBody, kResponse, kPOST, kPASTE, kPath, kPUT, kMACRO, kINCLUDE, kPATCH, kDELETE},
 	},
 	{ // 1: JSON-RPC
-		root: "JSIGHT 0.3\nURL /rpc\n  Protocol json-rpc-2.0\n  Method m\n    Description\n      d\n    Params\n    {\"a\": 1}\n    Result\n    {\"b\": 2}\n",
+		root:  "JSIGHT 0.3\nURL /rpc\n  Protocol json-rpc-2.0\n  Method m\n    Description\n      d\n    Params\n    {\"a\": 1}\n    Result\n    {\"b\": 2}\n",
 		kinds: []int{kJSIGHT, kURL, kProtocol, kMethod, kDescription, kParams, kResult},
 	},
 	{ // 2: a directive that only occurs inside a MACRO body that is never pasted, and one only in an included file
@@ -55,6 +56,12 @@ var vBanDocs = []vBanDoc{
 		},
 		kinds: []int{kJSIGHT, kGET, kResponse, kINCLUDE, kPOST, kPASTE, kMACRO, kENUM, kSERVER, kBaseUrl},
 	},
+	// 4..7: projects whose LAST directive is faulty in itself (they are rejected without any ban): when
+	// that directive is banned, the not-allowed error is due, not the complaint about its arguments
+	{root: "JSIGHT 0.3\nGET /a\n  200 any\nINCLUDE missing.jst\n", kinds: []int{kJSIGHT, kGET, kResponse, kINCLUDE}, faulty: true},
+	{root: "JSIGHT 0.3\nGET /a\n  200 any\nTYPE cat\n{}\n", kinds: []int{kJSIGHT, kGET, kResponse, kTYPE}, faulty: true},
+	{root: "JSIGHT 0.3\nGET /a\n  200 any\nPOST /x /y\n", kinds: []int{kJSIGHT, kGET, kResponse, kPOST}, faulty: true},
+	{root: "JSIGHT 0.3\nGET /a\n  200\n    Body any\n    Headers\n    {\n", kinds: []int{kJSIGHT, kGET, kResponse, kBody, kHeaders}, faulty: true},
 }
 
 func vBuildBanDoc(doc vBanDoc, oo ...Option) (*JApiCore, *jerr.JApiError) {
@@ -74,7 +81,7 @@ func HBanned() {
 
 	// without the option
 	c0, je0 := vBuildBanDoc(doc)
-	vAssert(je0 == nil, "c19-fixture-document-not-buildable")
+	vAssert((je0 != nil) == doc.faulty, "c19-fixture-document-verdict")
 	// with the option
 	c1, je := vBuildBanDoc(doc, WithBannedDirectives(directive.Enumeration(b1), directive.Enumeration(b2)))
 
@@ -83,6 +90,12 @@ func HBanned() {
 		if k == b1 || k == b2 {
 			occurs = true
 		}
+	}
+	if !occurs && doc.faulty {
+		vAssert(je != nil && je.Msg == je0.Msg && je.Index == je0.Index, "c19-ban-of-absent-directive-changes-the-error")
+		vReach("unaffected")
+		vObserve("same-error")
+		return
 	}
 	if !occurs {
 		vAssert(je == nil, "c19-ban-of-absent-directive-changes-the-result")
